@@ -353,6 +353,7 @@ PROPS['C12'] = dict(
     units=[
         U(c12, 'rc', 1200, 60000, wq=6, wt=8, label='c12-rc'),
         U(c12, 'prng', 5000, 400000, wq=8, wt=8, label='c12-prng'),
+        F(B('fz_c12_ops', 'c12_mutation.cpp', 'fuzz'), 15, 600, wq=2, wt=3, label='fz_c12_ops', max_len=2048),
     ],
     rule='cases: operation sequences (1..210 steps, generated and shrunk as one value) over 3 documents, pool or freeing '
          'allocator: Set null/bool/int64/uint64/double/string(copied|constant)/array/object on any node, AddMember (copyKey '
@@ -378,6 +379,7 @@ PROPS['C13'] = dict(
     units=[
         U(c13, 'rc', 1200, 60000, wq=6, wt=8, label='c13-rc'),
         U(c13, 'prng', 5000, 400000, wq=8, wt=8, label='c13-prng', asan_options=FILL % 0x0c),
+        F(B('fz_c13_ops', 'c12_mutation.cpp', 'fuzz', defines=['-DVF_C13']), 15, 600, wq=2, wt=3, label='fz_c13_ops', max_len=2048),
     ],
     rule='cases: the C12 operation language on documents using a tracking allocator (kNeedFree, every Realloc moves, freed blocks '
          'poisoned), extended with document operations (1 step in 5): move-construct, move-assign, Swap, Parse of valid and '
@@ -399,6 +401,7 @@ PROPS['C19'] = dict(
     units=[
         U(c19, 'rc', 2500, 80000, wq=4, wt=6, label='c19-rc'),
         U(c19, 'prng', 30000, 2000000, wq=8, wt=10, label='c19-prng', asan_options=FILL % 0x0c),
+        F(B('fz_c19_pairs', 'c19_schema.cpp', 'fuzz'), 15, 600, wq=2, wt=3, label='fz_c19_pairs', max_len=2048),
     ],
     rule='cases: (existing value E, 1..3 valid texts T applied in sequence), duplicate-free, keys from a shared pool of 10 so that '
          'declared / undeclared / omitted keys occur at every level; all 8x8 kind combinations (null, bool, number, string, '
@@ -446,6 +449,7 @@ PROPS['C18'] = dict(
     units=[
         U(c18, 'rc', 3000, 80000, wq=3, wt=4, label='c18-rc'),
         U(c18, 'prng', 50000, 3000000, wq=6, wt=10, label='c18-prng'),
+        F(B('fz_c18_pairs', 'c18_equality.cpp', 'fuzz'), 15, 600, wq=2, wt=3, label='fz_c18_pairs', max_len=2048),
     ],
     rule='cases: a duplicate-free value v, a partner w that is v or v with exactly one change (leaf value / bit, 1 vs 1.0, sign, '
          '0.0 vs -0.0, number vs its digits as a string, string longer/shorter/one byte, null/false/true, [] vs {}, array '
@@ -467,6 +471,7 @@ PROPS['C16'] = dict(
     units=[
         U(c16, 'rc', 1500, 60000, wq=4, wt=6, label='c16-rc', asan_options='detect_leaks=0'),
         U(c16, 'prng', 12000, 800000, wq=8, wt=10, label='c16-prng', asan_options='detect_leaks=0'),
+        F(B('fz_c16_ops', 'c16_pool.cpp', 'fuzz'), 15, 600, wq=2, wt=3, label='fz_c16_ops', max_len=2048, asan_options='detect_leaks=0'),
     ],
     rule='cases: operation sequences (1..320 steps, generated and shrunk as one value) over up to 3 allocator handles: create pool '
          '(chunk capacity 64/256/1024/65536, simple or adaptive chunk policy, own or caller-supplied base allocator, optional '
